@@ -10,5 +10,8 @@ MCGood2 == { T("fd", {"fd"}), T("tgt", {"tgt"}), T("tgt2", {"tgt2"}), T("dv", {"
 MCGood3 == { T("idm", {"idm"}), T("idb", {"idb"}), T("fm1", {"fm1"}), T("fm2", {"fm2"}), T("fs", {"fs"}),
              T("au", {"ida", "idu"}), T("sr1", {"ids@1"}), T("sr2", {"ids@2"}) }
 MCBad2 == { "x-top-level-container", "x-top-level-grouping" }
+\* six operations over a reduced first catalogue (thorough tier)
+MCGoodSix == { T("i1", {"i1"}), T("t2", {"t2"}), T("a3", {"a3"}), T("ib", {"ib"}), T("bb-r1", {"bb@1"}), T("bb-r2", {"bb@2"}) }
+MCBadSix == { "x-syntax", "x-top-level-grouping" }
 MCBad == { "x-file-syntax", "x-top-level-grouping", "x-syntax", "x-typedefs-then-rejected", "x-unknown-top", "x-second-module-rejected" }
 ====
